@@ -97,13 +97,14 @@ type config struct {
 	CLIFlag  string     // the secret flag put on the command line (secret=cli)
 	Group    string     // generator that produced the case
 	ChanSeed int64      // per-option channel choice for channel=mixed
+	ValList  []string   // auth.contractvalidators as written (nil: the option is not given); a spelling/list variant of V[fValidators]
 }
 
 func (c config) strict() bool { return c.V[fStrict] != "false" }
 func (c config) nuts() bool   { return c.V[fDID] != "web" }
 
 func (c config) fingerprint() string {
-	return strings.Join(c.V[:], "|") + "|" + c.URL + "|" + c.TLSVar + "|" + c.CLIFlag
+	return strings.Join(c.V[:], "|") + "|" + c.URL + "|" + c.TLSVar + "|" + c.CLIFlag + "|" + strings.Join(c.ValList, ",")
 }
 
 var urlVariants = map[string][]string{
@@ -122,6 +123,46 @@ var tlsVariants = map[string][]string{
 	"none":    {"", "offload-incoming", "offload-incoming+clientcertheader"}, // TLS offloading configured, but still no certificate: network TLS is off
 	"partial": {"cert-only", "key-only", "no-truststore", "truststore-only"},
 	"legacy":  {"network.certfile", "network.certkeyfile", "network.truststorefile", "network.all", "network.all+tls"},
+}
+
+// validatorVariants: the ways a user can write a value of auth.contractvalidators. The node matches the entries of that list without
+// regard to case, so every spelling of a means selects it; the list may name a means twice, amid others, in any position, or spell out the
+// default. What strict mode promises about the dummy means it promises for each of them (the reference never looks at the spelling in
+// strict mode). Index 0 is the documented spelling.
+var validatorVariants = map[string][][]string{
+	"dummy": {{"dummy"}, {"Dummy"}, {"DUMMY"}, {"dUmMy"}, {"dummy", "dummy"}, {"Dummy", "dummy"}, {"dummy", "DUMMY"}, {"irma", "Dummy"}, {"DUMMY", "employeeid"},
+		{"employeeid", "dummy", "irma"}, {"irma", "dummy", "employeeid"}, {"Irma", "Dummy", "EmployeeID"}, {"dummy "}, {" Dummy"}},
+	"irma":            {{"irma"}, {"IRMA"}, {"Irma"}, {"irma", "irma"}},
+	"employeeid":      {{"employeeid"}, {"EmployeeID"}, {"EMPLOYEEID"}},
+	"irma+employeeid": {{"irma", "employeeid"}, {"employeeid", "IRMA"}},
+	"uzi":             {{"uzi"}, {"UZI"}},
+}
+
+// dummyListed: does the list name the dummy means in the documented spelling (exact), resp. in any spelling the node's case-insensitive
+// lookup - or a channel that trims white space - can take for it (folded)?
+func dummyListed(list []string) (exact, folded bool) {
+	for _, v := range list {
+		if v == "dummy" {
+			exact = true
+		}
+		if strings.EqualFold(strings.TrimSpace(v), "dummy") {
+			folded = true
+		}
+	}
+	return
+}
+
+// dummySpellings are the spellings other than the documented one under which the list names the dummy means.
+func dummySpellings(list []string) []string {
+	var out []string
+	seen := map[string]bool{"dummy": true}
+	for _, v := range list {
+		if strings.EqualFold(strings.TrimSpace(v), "dummy") && !seen[v] {
+			seen[v] = true
+			out = append(out, v)
+		}
+	}
+	return out
 }
 
 // secretFlags are the options the documentation calls secrets ("All options ending with token or password"), taken from the
@@ -153,6 +194,15 @@ func concretise(c *config, rnd *rand.Rand, secrets []string) {
 		c.CLIFlag = pick(rnd, secrets)
 	}
 	c.ChanSeed = rnd.Int63()
+	// how the contract validators are written: derived from the channel seed (no further draw, the other choices stay what they were);
+	// the documented spelling keeps a third of the weight
+	if vs := validatorVariants[c.V[fValidators]]; len(vs) > 0 {
+		k := int(uint64(c.ChanSeed) >> 7 % uint64(len(vs)+len(vs)/2))
+		if k >= len(vs) {
+			k = 0
+		}
+		c.ValList = vs[k]
+	}
 }
 
 // ---- the reference: what the documents promise -----------------------------------------------------------
@@ -355,13 +405,16 @@ func materialise(c config, dir string, w world) launch {
 	case "sqlite-memory":
 		add("storage.sql.connection", "sqlite:file::memory:?cache=shared&_pragma=foreign_keys(1)")
 	}
-	switch c.V[fValidators] {
-	case "default":
-	case "irma+employeeid":
+	switch {
+	case c.V[fValidators] == "default":
+	case c.ValList != nil:
+		add("auth.contractvalidators", c.ValList)
+	case c.V[fValidators] == "irma+employeeid":
 		add("auth.contractvalidators", []string{"irma", "employeeid"})
 	default:
 		add("auth.contractvalidators", []string{c.V[fValidators]})
 	}
+	l.Spec.DummyMeans = dummySpellings(c.ValList)
 	if c.V[fIrma] != "unset" {
 		add("auth.irma.schememanager", c.V[fIrma])
 	}
@@ -735,6 +788,27 @@ func generate(r *ev.Run, secrets []string) []config {
 			out = append(out, c)
 		}
 	}
+	// G2c: every way of writing the dummy means into auth.contractvalidators (case, repetition, position amid other means, white space) on a
+	// secure background that starts, in strict mode (given and by default) and with strict mode off - all of them in every tier
+	rnd = r.Rand("g2c")
+	for i, list := range validatorVariants["dummy"] {
+		row := make([]int, len(secure))
+		for f := range row {
+			row[f] = rnd.Intn(len(secure[f]))
+		}
+		c := fromRow(secure, row, "validator-spellings")
+		c.V[fValidators] = "dummy"
+		c.V[fStrict] = []string{"true", "unset"}[(i+int(r.Seed()))%2]
+		ch := values(fChannel, th)
+		c.V[fChannel] = ch[(i+int(r.Seed()))%len(ch)]
+		concretise(&c, rnd, secrets)
+		c.ValList = list
+		out = append(out, c)
+		twin := c
+		twin.V[fStrict] = "false"
+		twin.Group = "validator-spellings-nonstrict-twin"
+		out = append(out, twin)
+	}
 	// G3: covering array over the complete product (pairwise; 3-wise in the thorough tier)
 	var all [][]string
 	for f := range factors {
@@ -813,13 +887,15 @@ func TestCheck(t *testing.T) {
 		"auth.irma.schememanager x jsonld.contexts.remoteallowlist x didmethods x delivery channel x secret delivery x bystander options the documents do not connect with strict mode: " +
 		"http.cache.maxbytes {unset, 0, 1, large, negative} x operational bundle {logging, optional subsystems off, time-outs}), generated from the seed as (1) a pairwise covering array over the " +
 		"start-up-secure values in strict mode, (2) every single insecure/moved/CLI-secret setting on random secure backgrounds with its non-strict twin, (3) a covering array over the " +
-		"complete product (pairwise quick, 3-wise thorough); each is started with the real `nuts server` command in its own child process. Plus outbound cases (strictmode, constructor, cache, " +
+		"complete product (pairwise quick, 3-wise thorough), (4) every way of writing the dummy means into auth.contractvalidators (letter case, repeated, amid/before/after other means, the " +
+		"default list spelled out, white space) on a secure background in strict mode and with strict mode off, and a seeded spelling/list variant of the validators value in all other groups; " +
+		"on every running node the dummy means is tried (signing session as 'dummy' and under each configured spelling, verification of an unsigned dummy presentation); each is started with the real `nuts server` command in its own child process. Plus outbound cases (strictmode, constructor, cache, " +
 		"method, URL class, redirect chain) through the real http/client, with the client switched through the package variables and through the real HTTP engine's Configure (strictmode x http.cache.maxbytes, " +
 		"fresh-process state before each). Plus, on every running node, JSON-LD context cases (allow list configuration, strictmode, " +
 		"route = document loader | JSON-LD reader | VC search API, listed entry, kind of look-alike URL derived from it: prefix extensions, truncations, suffix/substring embeddings, same host/other " +
 		"path, other host/same path, scheme, case, port, trailing dot, userinfo, percent-encoding, whitespace, dot segments, seeded random variants; listed contexts whose server nests/imports/" +
 		"redirects to/links an unlisted one), judged on the requests seen at the transport against exact membership in the configured list. A case is non-trivial when the child reported a decisive observation (refusal with its error, or a running node " +
-		"with its probes) / the request outcome was recorded; distinct by the full configuration (values and concrete variants) resp. the outbound case tuple resp. " +
+		"with its probes) / the request outcome was recorded; distinct by the full configuration (values and concrete variants, incl. the validators list as written) resp. the outbound case tuple resp. " +
 		"(list configuration, mode, route, kind, entry).")
 	r.Require(r.Pick(60, 400), r.Pick(50, 300))
 	r.Assume("network TLS on/off is the tls.* factor: this version has no network.enabletls, TLS is on iff tls.certfile/tls.certkeyfile are set")
@@ -870,6 +946,7 @@ func TestCheck(t *testing.T) {
 	}
 	coverage(r, cases)
 	bystanderCoverage(r, results)
+	validatorCoverage(r, results)
 	batteryCoverage(r, results)
 	<-directDone
 	for _, s := range directSamples {
@@ -1009,25 +1086,46 @@ func plainAttempts(attempts []string) []string {
 func evaluateProbes(r *ev.Run, res result, mode string) {
 	c := res.c
 	strict := c.strict()
-	dummyConfigured := c.V[fValidators] == "default" || c.V[fValidators] == "dummy"
+	// the documented spelling is on the list (or the list is the default, which names it); otherSpelling: only spellings the documents do not mention
+	exact, folded := dummyListed(c.ValList)
+	dummyConfigured := c.V[fValidators] == "default" || exact
+	otherSpelling := !dummyConfigured && folded
+	written := c.V[fValidators]
+	if c.ValList != nil {
+		written = fmt.Sprintf("%q", c.ValList)
+	}
 	seen := map[string]bool{}
 	for _, p := range res.o.Probes {
 		seen[p.Probe] = true
 		r.Count("probes", 1)
 		w := map[string]any{"probe": p, "config": c, "args": res.l.Args, "env": res.l.Env, "configfile": res.l.Yaml}
 		switch p.Probe {
-		case "dummy-session", "dummy-verify":
+		case "dummy-session", "dummy-verify", "dummy-session-as-configured":
+			if strict && c.ValList != nil {
+				r.Distinct("validator_lists_probed_on_strict_node", strings.Join(c.ValList, ","))
+			}
 			switch {
 			case p.Status == 0 && p.Err != "":
 				r.Inconclusive("no response from the node for " + p.Probe + ": " + p.Err)
 			case strict && p.OK:
-				r.Violation("C20/strict/dummy-means-usable/"+p.Probe, "strict mode: the dummy authentication means was accepted ("+p.Probe+", validators="+c.V[fValidators]+")", w)
+				r.Violation("C20/strict/dummy-means-usable/"+p.Probe, "strict mode: the dummy authentication means was accepted ("+p.Probe+", auth.contractvalidators="+written+")", w)
 			case strict:
 				r.Count("strict_dummy_refused", 1)
+			case p.Probe == "dummy-session-as-configured":
+				// the request names the means the way the configuration spells it: which names the API knows it by is not documented
+				if p.OK {
+					r.Count("nonstrict_dummy_other_spelling_accepted", 1)
+				} else {
+					r.Unspecified("non-strict: signing session asked for under the configured spelling of the dummy means (not 'dummy') -> not available")
+				}
 			case dummyConfigured && !p.OK:
 				r.Violation("C20/nonstrict/dummy-means-refused/"+p.Probe, fmt.Sprintf("strict mode off and dummy configured, but %s was refused: %d %s", p.Probe, p.Status, p.Msg), w)
 			case dummyConfigured:
 				r.Count("nonstrict_dummy_accepted", 1)
+			case otherSpelling && p.OK:
+				r.Count("nonstrict_dummy_other_spelling_accepted", 1)
+			case otherSpelling:
+				r.Unspecified("non-strict: dummy means written other than the documented lowercase 'dummy' (case, white space) -> not available")
 			}
 		case "jsonld-unlisted", "jsonld-unlisted-http":
 			switch {
@@ -1175,6 +1273,41 @@ func bystanderCoverage(r *ev.Run, results []result) {
 				if seen[factors[f].name+"="+v+"/"+mode] == 0 {
 					r.Inconclusive("no running " + mode + " node with " + factors[f].name + "=" + v + " carried out the outbound probes")
 				}
+			}
+		}
+	}
+}
+
+// validatorCoverage: every way of writing the dummy means has to have been tried on a RUNNING node in strict mode and with strict mode off
+// (session and verification probe answered) - otherwise nothing was observed about that spelling.
+func validatorCoverage(r *ev.Run, results []result) {
+	seen := map[string]int{}
+	for _, res := range results {
+		if !res.o.Running || res.c.V[fValidators] != "dummy" {
+			continue
+		}
+		answered := 0
+		for _, p := range res.o.Probes {
+			if (p.Probe == "dummy-session" || p.Probe == "dummy-verify") && p.Status != 0 {
+				answered++
+			}
+		}
+		if answered < 2 {
+			continue
+		}
+		mode := "strict"
+		if !res.c.strict() {
+			mode = "nonstrict"
+		}
+		k := fmt.Sprintf("%q/%s", res.c.ValList, mode)
+		seen[k]++
+		r.Distinct("dummy_spelling_x_mode_on_running_node", k)
+	}
+	r.Extra("dummy_spellings_on_running_nodes", seen)
+	for _, list := range validatorVariants["dummy"] {
+		for _, mode := range []string{"strict", "nonstrict"} {
+			if seen[fmt.Sprintf("%q/%s", list, mode)] == 0 {
+				r.Inconclusive(fmt.Sprintf("no running %s node with auth.contractvalidators=%q answered the dummy probes", mode, list))
 			}
 		}
 	}
